@@ -1,10 +1,13 @@
-(* C07 - RunEngine lifecycle never takes an illegal transition or gets stuck. *)
+(* C07 - RunEngine lifecycle never takes an illegal transition or gets stuck.
+   Model: Engine/RE.v (the real RunEngine at await-point granularity; validated against the real engine
+   by replaying the logged interleaving of every corpus run).  All statements quantify over every plan
+   behaviour (coalgebra P/presume/plan_of), every device behaviour (oracle D/dev) and every schedule
+   [evs] of task steps, request coroutines, status/release events and main-thread calls, of any length.
+   [OBad 1] is the model's out-of-fuel marker (an explicit error value, excluded by hypothesis). *)
 From Coq Require Import List.
-From BV Require Import Engine.RE Proofs.RE_Trans.
+From BV Require Import Engine.RE Proofs.RE_Trans Proofs.RE_Inv.
 
-(* For every plan behaviour (any coalgebra), every device behaviour and every schedule of task
-   steps, requests and main-thread calls (any length): every lifecycle change the engine performs
-   is a legal move of the transition table read from the source. *)
+(* (i) every lifecycle change is a legal move of the transition table read from the source. *)
 Theorem C07_transitions_legal :
   forall (P : Type) (presume : P -> input -> outcome P) (plan_of : nat -> P)
          (D : Type) (dev : D -> nat -> devmeth -> D * devres)
@@ -13,3 +16,46 @@ Theorem C07_transitions_legal :
            (snd (run P presume plan_of D dev s evs)).
 Proof. exact run_transitions_legal. Qed.
 Print Assumptions C07_transitions_legal.
+
+(* (ii) whenever the blocking event is set - the only moment at which RE(...), resume(), abort(), stop()
+   or halt() can return or raise - the engine is idle or paused, or (finding class C07-c) a request
+   coroutine ran while the engine sat paused and nobody resumed the task. *)
+Theorem C07_quiescent_state :
+  forall (P : Type) (presume : P -> input -> outcome P) (plan_of : nat -> P)
+         (D : Type) (dev : D -> nat -> devmeth -> D * devres)
+         (d : D) (paus stag : list nat) (rec : bool) (evs : list event),
+    let r := run P presume plan_of D dev (init P D d paus stag rec) evs in
+    ~ In (OBad 1) (snd r) ->
+    blocking P D (fst r) = true ->
+    state P D (fst r) = Idle \/ state P D (fst r) = Paused \/
+    (pc P D (fst r) = PcPaused /\
+     (state P D (fst r) = Aborting \/ state P D (fst r) = Stopping \/ state P D (fst r) = Halting)).
+Proof. exact quiescent_state. Qed.
+Print Assumptions C07_quiescent_state.
+
+(* (iii) the engine's own cleanup can never be refused by the state machine: at every execution of the
+   `finally` block of `_run` reached from a reachable state, `state = "idle"` is a legal move and the
+   block ends idle - "a request arriving while the plan is finishing never leaves the engine unusable". *)
+Theorem C07_cleanup_never_refused :
+  forall (P : Type) (presume : P -> input -> outcome P) (plan_of : nat -> P)
+         (D : Type) (dev : D -> nat -> devmeth -> D * devres)
+         (d : D) (paus stag : list nat) (rec : bool) (evs : list event)
+         (s1 : st P D) (r : tres) (pend : option exn) (os1 : list obs),
+    ~ In (OBad 1) (snd (run P presume plan_of D dev (init P D d paus stag rec) evs)) ->
+    visited P presume plan_of D dev (fst (run P presume plan_of D dev (init P D d paus stag rec) evs))
+            (s1, CFinalize r pend, os1) ->
+    allowed (state P D s1) Idle = true /\ state P D (fst (finalize P presume D dev s1 r pend)) = Idle.
+Proof. exact cleanup_never_refused. Qed.
+Print Assumptions C07_cleanup_never_refused.
+
+(* (iv) once the task is done the engine is idle and holds no open run. *)
+Theorem C07_done_is_idle :
+  forall (P : Type) (presume : P -> input -> outcome P) (plan_of : nat -> P)
+         (D : Type) (dev : D -> nat -> devmeth -> D * devres)
+         (d : D) (paus stag : list nat) (rec : bool) (evs : list event) (r : tres),
+    ~ In (OBad 1) (snd (run P presume plan_of D dev (init P D d paus stag rec) evs)) ->
+    pc P D (fst (run P presume plan_of D dev (init P D d paus stag rec) evs)) = PcDone r ->
+    state P D (fst (run P presume plan_of D dev (init P D d paus stag rec) evs)) = Idle /\
+    bundlers P D (fst (run P presume plan_of D dev (init P D d paus stag rec) evs)) = nil.
+Proof. exact done_is_idle. Qed.
+Print Assumptions C07_done_is_idle.
